@@ -308,6 +308,17 @@ def b_lookups(ctx):
                 ctx.fail(f'C07:series-raises:{fname}:{lname}', f'{fname}(Series) raises {type(e).__name__}: {e}', {'law': lname, 'bins': nb, 'max': mx})
                 continue
             ctx.case(True, key=(lname, nb, mx, 'series', fname))
+            # the labels of the load Series mean nothing for a single-point table: descending / repeated labels give the same values position by position
+            # (proactive, after seeds C04-g / C10-g looked up or sorted by label)
+            for iname, ix in (('descending', list(range(len(prs), 0, -1))), ('repeated', [k_ % 2 for k_ in range(len(prs))])):
+                ser_v = pd.Series(prs, index=ix)
+                try:
+                    got_v = np.asarray(fn(ser_v) if second is None else fn(getattr(b, second)(ser_v), ser_v), dtype=float)
+                except Exception as e:   # noqa
+                    ctx.fail(f'C07:series-labels:raises:{fname}:{lname}', f'{fname}(Series with {iname} labels) raises {type(e).__name__}: {e}', {'law': lname, 'bins': nb, 'max': mx})
+                    continue
+                if not np.array_equal(got_v, got):
+                    ctx.fail(f'C07:series-labels:{fname}:{lname}', f'{fname}(Series with {iname} labels) differs from the same loads with the labels 0..n-1 (n={nb}, max={mx})', {'law': lname, 'bins': nb, 'max': mx, 'labels': iname})
             if not np.array_equal(got, want):
                 k_ = int(np.argmax(got != want))
                 ctx.fail(f'C07:series:{fname}:{lname}', f'{fname}(Series)[{k_}] = {got[k_]} for load {prs[k_]}, the scalar look-up gives {want[k_]} (n={nb}, max={mx})', {'law': lname, 'bins': nb, 'max': mx, 'load': prs[k_]})
